@@ -262,7 +262,7 @@ def close(a, b, kind, ext, ctxv):
     elif kind == "abs":
         tol = REL
     else:
-        rel = REL + 28.0 * nu + eps      # d ln m = ln(10) n dpH
+        rel = REL + 28.0 * nu + eps + ctxv.get("nu_psi", 0.0)     # d ln m = ln(10) n dpH - z F dpsi / RT
         if kind == "rel":
             tol = rel * max(abs(a), abs(b), 1e-12)
         elif kind == "alk":
@@ -320,6 +320,17 @@ def make_views(case):
         has_reactant = any(m.get(k) for k in ("eq", "rx", "ex", "su", "gas", "kin"))
         if not has_reactant:
             vA["force_mix"] = True
+        # manual (MIX): "each solution is multiplied by its mixing fraction ... the mass of water is effectively multiplied
+        # by the same fraction ... the charge imbalance ... is multiplied by the mixing fraction": a single source with
+        # fraction s is the solution defined with s times the water, used directly
+        src = m["src"]
+        st2 = m.get("st2")
+        reused = st2 and any(n == src[0][0] for n, _ in st2["src"])
+        # (rows of an initial exchange / surface / gas calculation mix solution and reactant amounts: not rescaled)
+        reused = reused or any((m.get(k) or {}).get("equil") == src[0][0] for k in ("ex", "su", "gas"))
+        if xf.get("scaleA") and len(src) == 1 and src[0][1] != 1.0 and not reused:
+            vA["sol_scale"] = {src[0][0]: src[0][1]}
+            info["sol_scale"] = vA["sol_scale"]
     elif fam == "S":
         vB["spread"] = True
     else:
@@ -442,6 +453,8 @@ def check_case(case, ctx):
         kgw = va[iw] if isinstance(va[iw], float) else 1.0
         mu = va[imu] if isinstance(va[imu], float) else 0.0
         row_ext = 1.0 if keyB[2] in copies else ext
+        if state == "i_soln" and keyA[2] in info.get("sol_scale", {}):
+            row_ext = 1.0 / info["sol_scale"][keyA[2]]
         kgwb = vb[iw] if isinstance(vb[iw], float) else kgw
         ctxv = {"mu": mu, "kgw": kgw, "ext_floor": 1e-3 * inventory + 1e-6 * kgw, "tol_pH": REL, "nu": 0.0,
                 "site_sigma": site_sigma}
@@ -486,6 +499,13 @@ def check_case(case, ctx):
         # a gas phase that has dissolved completely has no composition: its pressures are not results
         gas_n = sum(abs(va[i]) for i, o in enumerate(obs) if o[0].startswith("GAS(") and isinstance(va[i], float))
         gas_gone = gas_n <= 1e-9 * max(kgw, 1e-30)
+        ipsi = [i for i, o in enumerate(obs) if o[1] == "psi"]
+        ctxv["nu_psi"] = 0.0
+        if ipsi and isinstance(va[ipsi[0]], float) and isinstance(vb[ipsi[0]], float) and state != "i_soln":
+            # the accepted difference of the surface potential is a nuisance parameter of the surface speciation
+            dpsi = abs(va[ipsi[0]] - vb[ipsi[0]])
+            tolpsi = (REL + 28.0 * ctxv["nu"]) * max(abs(va[ipsi[0]]), abs(vb[ipsi[0]]), 0.0257)
+            ctxv["nu_psi"] = 4.0 * 38.92 * min(dpsi, tolpsi)
         for i, (expr, kind, poised_only, oels) in enumerate(obs):
             if poised_only and not poised:
                 continue
@@ -495,6 +515,10 @@ def check_case(case, ctx):
                 skipped_noise += 1
                 continue
             if gas_gone and expr.startswith(("PR_P", "PR_PHI", "GAS_P", "GAS_VM")):
+                continue
+            if expr == "SC" and abs(va[icb]) / max(kgw, 1e-300) > 0.2 * mu:
+                # the conductivity model averages charge and mobility over "the cations" and "the anions"; in a water
+                # without counter-ions one of the two sets consists of trace species at the solver's resolution
                 continue
             a, b = va[i], vb[i]
             if info["bitwise"]:
@@ -550,7 +574,7 @@ def check_case(case, ctx):
 
 
 # ------------------------------------------------------------------------------------------ driver
-SHARE = {"U": 0.22, "U1": 0.08, "W": 0.2, "N": 0.1, "P": 0.13, "R": 0.07, "M": 0.2}
+SHARE = {"U": 0.2, "U1": 0.08, "W": 0.2, "N": 0.1, "P": 0.12, "R": 0.06, "M": 0.18, "S": 0.06}
 
 
 def run(ctx):
